@@ -61,11 +61,18 @@ def main():
             if f.endswith("_test.go"):
                 shutil.copy(os.path.join(seed, f), os.path.join(wt, demo_pkg, "zz_seed_" + f))
         if any(f.endswith("_test.go") for f in demo_files):
-            cmd = "go test -vet=off -count=1 %s ./%s/" % ("-run '%s'" % run.group(1).strip("'\"") if run else "", demo_pkg)
+            tags = re.search(r"-tags[= ]\s*(\S+)", meta.get("demo_cmd", ""))  # e.g. -tags verif (juno's own hook points)
+            cmd = "go test %s-vet=off -count=1 %s ./%s/" % ("-tags %s " % tags.group(1) if tags else "",
+                                                          "-run '%s'" % run.group(1).strip("'\"") if run else "", demo_pkg)
             rc_with, out_with = sh(cmd, wt)
-            sh("git stash -q", wt)  # stashes the tracked change only; the untracked demo file stays
+            # take the tracked change out and put it back WITHOUT git stash (the stash is shared by all worktrees of
+            # a repository, so parallel runs would pop each other's entries); the untracked demo file stays
+            sh("git diff > .seedtest.patch && git checkout -q -- .", wt)
             rc_without, out_without = sh(cmd, wt)
-            sh("git stash pop -q", wt)
+            rc_re, out_re = sh("git apply .seedtest.patch && rm -f .seedtest.patch", wt)
+            if rc_re != 0:
+                res["error"] = "could not re-apply the change: " + out_re[-300:]
+                return res
             if rc_with != 0:
                 res["demo_with_tail"] = out_with[-400:]
             res["demo_fails_with_change"] = rc_with != 0
